@@ -17,6 +17,24 @@ STREAM_STATE_METHODS = {'flags', 'setf', 'unsetf', 'precision', 'fill', 'imbue',
 PRINTER_FILES = ('src/io.cxx', 'include/ipr/io')
 
 
+def sticky_in(f):
+    """sticky manipulators inserted / formatting-state setters called in one function (shared with C17)"""
+    sticky = []
+    for n in walk(f.get('body')):
+        if n.get('k') == 'ref' and n.get('kind') == 'fn':
+            q = (n['fn'].get('q') or '').split('<')[0]
+            if q in STICKY:
+                sticky.append(q)
+        if n.get('k') == 'call':
+            c = n.get('callee') or {}
+            if c.get('name') in STREAM_STATE_METHODS and (c.get('parent') or '').startswith(('std::ios_base', 'std::basic_ios', 'std::basic_ostream')):
+                sticky.append(c['q'].split('<')[0].split('::')[-1] + '()')
+            q = (c.get('q') or '').split('<')[0]
+            if q in STICKY:
+                sticky.append(q)
+    return sticky
+
+
 def printer_functions(F):
     return [f for f in F.fn.values() if f['loc'].split(':')[0] in PRINTER_FILES]
 
